@@ -50,7 +50,8 @@ ROUTERS = [U("Direct.next_node"), U("Leave.next_node"), U("Probabilistic.next_no
 SCHEDULES = [U("Schedule.get_schedule_generator"), U("Schedule.initialise"), U("Schedule.get_next_shift"),
              U("Slotted.get_next_slot"), U("Slotted.initialise"), U("Node.kill_server"), U("Node.add_new_servers"),
              U("Node.take_servers_off_duty"), U("Node.begin_service_if_possible_change_shift"), U("Node.change_shift", "Node"),
-             U("Node.interrupt_service"), U("Node.slotted_service", "Node")]
+             U("Node.interrupt_service"), U("Node.slotted_service", "Node"),
+             U("Slotted.__init__"), U("Schedule.__init__")]
 EXACT = [U("ExactNode.get_service_time"), U("ExactArrivalNode.inter_arrival"), U("ExactNode.increment_time"), U("ExactArrivalNode.increment_time")]
 
 PROPS = {
